@@ -353,6 +353,38 @@ C05Sound(c, o) ==
                : n \in hs }
        \cup C05(c, o).fails ]
 
+(* ------------------------------------------------------------------ C10 *)
+EncaseFails(S, e) ==
+  LET n == e.struct
+      kk == IF e.k < 0 THEN 0 ELSE e.k
+      want == L!StructPositions(S, n, kk)
+      got == e.positions
+      tag == IF L!HasExplicitLayoutAttrs(S, n) THEN " [explicit-layout-attrs]" ELSE ""
+  IN Chk(e.len = L!ImageLen(S, n, kk), "encase (" \o e.writer \o ") wrote " \o Str(e.len) \o " bytes for " \o n \o " (runtime elements " \o Str(e.k) \o ") but the WGSL size is " \o Str(L!ImageLen(S, n, kk)) \o tag)
+     \cup Chk(Len(got) = Len(want) /\ \A i \in DOMAIN got : want[i] \in Range(got[i]),
+              "encase (" \o e.writer \o ") placed the components of " \o n \o " at " \o ToJson(got) \o " but the WGSL offsets are " \o ToJson(want) \o tag)
+(* the statement covers member types glam can represent: scalars, vec2-4, square matrices, arrays / structs / runtime arrays of those *)
+RECURSIVE GlamTy(_, _)
+GlamTy(S, t) ==
+  CASE t.k \in {"scalar", "atomic", "vec"} -> t.s \in {"f32", "i32", "u32", "f64"}
+    [] t.k = "mat" -> t.c = t.r /\ t.s \in {"f32", "f64"}
+    [] t.k \in {"array", "rtarray"} -> GlamTy(S, t.e)
+    [] t.k = "struct" -> \A m \in Range(StructDef(S, t.name).members) : GlamTy(S, m.ty)
+    [] OTHER -> FALSE
+C10(c, o) ==
+  IF HasS(c) /\ ValidAll(o) /\ RetOk(o) /\ c.opts.enc /\ c.opts.mv = "glam" /\ Has(o, "compile") /\ o.compile.outcome = "reject"
+     /\ (Range(o.compile.classes) \ CP!Permitted) # {}
+     /\ (\A n \in { x \in Emit(c.S) : ST!HostShareable(c.S, x) } : GlamTy(c.S, [ k |-> "struct", name |-> n ]))
+  THEN [ dom |-> TRUE, fails |-> { "the encase + glam module does not compile [predicted=" \o ToJson(CP!PredictedCauses(c.S, c.opts)) \o "]: " \o o.compile.errors[1] } ] ELSE
+  IF ~(HasS(c) /\ ValidAll(o) /\ RetOk(o) /\ Compiled(o) /\ c.opts.enc /\ c.opts.mv = "glam") THEN NoVerdict ELSE
+  LET evs == SelectSeq(RtOf(o, "encase"), LAMBDA e : e.ev = "rt.encase") IN
+  [ dom |-> RtOf(o, "encase") # << >> \/ ProbeFail(o, "encase") # {}, fails |->
+      { "a value of the generated struct cannot be written with encase: " \o m : m \in ProbeFail(o, "encase") }
+      \cup (IF \A n \in { x \in Emit(c.S) : ST!HostShareable(c.S, x) } : GlamTy(c.S, [ k |-> "struct", name |-> n ])
+            THEN { "writing a value through encase panicked: " \o e.msg : e \in { x \in Range(o.rt) : x.ev = "probe.panic" /\ x.probe = "encase" } }
+            ELSE {})
+      \cup UNION { IF GlamTy(c.S, [ k |-> "struct", name |-> evs[i].struct ]) THEN EncaseFails(c.S, evs[i]) ELSE {} : i \in DOMAIN evs } ]
+
 (* ------------------------------------------------------------------ C12 *)
 C12(c, o) ==
   IF HasS(c) /\ ValidAll(o) /\ RetOk(o) /\ RejectedAbout(o, "override")
@@ -470,6 +502,7 @@ Judge0(c, o) ==
     [] Enforce = "C05" -> C05(c, o)
     [] Enforce = "C05S" -> C05Sound(c, o)
     [] Enforce = "C01" -> C01(c, o)
+    [] Enforce = "C10" -> C10(c, o)
     [] Enforce = "C04" -> C04(c, o)
     [] Enforce = "C14" -> C14(c, o)
     [] Enforce = "C07" -> C07(c, o)
